@@ -88,7 +88,8 @@ def check_case(ctx, cfg, seed):
             for l, (name, fw) in enumerate(zip(res['names'], res['fw'])):
                 A, G, so = rec['held'][l]
                 if fw == r:
-                    if not (isinstance(A, torch.Tensor) and torch.equal(A, truth[name][0]) and torch.equal(G, truth[name][1])):
+                    if not (isinstance(A, torch.Tensor) and A.dtype == truth[name][0].dtype and G.dtype == truth[name][1].dtype
+                            and torch.equal(A, truth[name][0]) and torch.equal(G, truth[name][1])):
                         ctx.fail(f'factor worker {r} of layer {name} does not hold the saved factors after load', case, 'neox-restore')
                         return
                     if (cfg.ops[ci] == 'l1') != so:
@@ -175,6 +176,7 @@ def run(ctx):
             if mid == 'l0':
                 cfg.ius = 1      # documented precondition of compute_inverses=False
             cfg.ops = ['f1', 's'] * before + [mid] + ['f1', 's'] * after
+            cfg.inv32 = rng.random() < 0.4
             if rng.random() < 0.3:
                 cfg.ckpt_dir = os.path.join(OUT, 'neox_ckpt', f'case{i}')
         check_case(ctx, cfg, ctx.seed * 613 + i)
